@@ -3,13 +3,13 @@ import concurrent.futures as cf
 import copy, json, os, random, re, sys, time
 sys.path.insert(0, os.path.dirname(os.path.dirname(os.path.abspath(__file__))))
 from lib.common import *
-from props import backoff_probe
+from props import backoff_probe, round_probe
 
 ID = "C18"
 PKG = "server"
 TEST = "TestVerifHarness_NodeLoss"
 HDIRS = ["nodeloss"]
-COQ_TARGETS = ["Run/Run_NodeLoss.vo", "Run/Run_Backoff.vo"]
+COQ_TARGETS = ["Run/Run_NodeLoss.vo", "Run/Run_Backoff.vo", "Run/Run_Round.vo"]
 META = {
     "text": "Theorems (Properties/C18.v) over Gallina models of (1) the client listener's reconnect decision (client/listener.go AcceptWithContext, plus the pinned pre-fix decision for the refutation of D4) and the accept loop around it, (2) Server.Shutdown (server/server.go) as the real step order interleaved with ALL schedules of the upstream handlers' asynchronous exits, (3) the leave reaching a notified peer composed over the shared gossip and syncer models (LeaveLocal, ApplyDelta of the leaver's full local delta, OnLeave, LookupEndpoint) for every leaver state, peer view, routing table and endpoint, the crash counterpart (detector verdict -> OnUnreachable -> not routed to), (4) recovery on the survivors as a composition statement over lookup_candidates and the local registry, and (5) how soon a listener redials: pkg/backoff (jitter as an oracle) and the timed retry loop of client/upstream.go - for every legal jitter sequence the loop never gives up, every wait lies in [min, 1.1 max + 1ns], waits double until capped, and once a node is reachable again a dial starts within one dial duration plus one capped wait (defaults: 16.5 s). The models are tied to the code by an in-process cluster of three REAL server nodes (server.NewServer/Start, 40 ms gossip interval; optionally three more live nodes, so that the leaver cannot notify every peer itself, or a fourth node that left / crashed earlier and is still remembered), real client listeners with stamping HTTP upstreams behind a one-URL TCP front, and requests to every survivor's proxy port: a node is lost gracefully (Server.Shutdown), by a crash (all its sockets closed abruptly, no Leave) or by a crash in the middle of its shutdown, idle / with upstreams connected / with requests in flight; an independent python monitor evaluates the property on the recorded timeline and the recorded states are replayed on the models inside Coq. The backoff model is tied to the REAL pkg/backoff.Backoff (scripted configurations, every (wait, ok) replayed in Coq with the observed wait as the jitter oracle) and to the REAL Upstream.connect / Listen loop against a loopback server failing the first N handshakes (the waits the loop announces in its own log records, server-side arrival times).",
     "note": "PARTIAL. Proved: the decision logic, the shutdown bookkeeping under every schedule, that a notified peer marks the leaver left and LookupEndpoint never returns it, that a detected crash has the same effect, and the recovery composition under stated settledness hypotheses. Observed only (not proved): timing (Shutdown within the grace period, detector verdict, gossip convergence), process death (a crash is simulated in-process by closing every socket of the node), real reconnection (dial, yamux/websocket error reporting), and that every upstream handler returns after cancellation. Trusted: Coq kernel+VM, the hand-written models, the Go harness and the python translation.",
@@ -565,6 +565,8 @@ def run(ctx):
             scs += [dict(sc, id="%s-r%d" % (sc["id"], rep)) for sc in matrix(rng)]
         scs += [gen_scenario(rng, "g%d" % i) for i in range(40)]
     bo_cov, bo_viol = backoff_probe.run(ctx, ID)
+    lv_cov, lv_viol = round_probe.run(ctx, ID, {"leave"})
+    bo_viol = bo_viol + lv_viol
     binary = build_harness(PKG, dirs=HDIRS)
     t0 = time.time()
     outs = run_scenarios(binary, wd, scs, parallel=1 if quick else 3)
@@ -663,7 +665,7 @@ def run(ctx):
            "requests_sent": sum(len(o.get("requests") or []) for o in outs),
            "shutdown_ms": [o["loss_ms"] for sc, o in okc if sc["mode"] == "graceful"],
            "crash_detection_ms": {"n": len(det), "min": min(det) if det else None, "max": max(det) if det else None},
-           "reconnection_backoff": bo_cov,
+           "reconnection_backoff": bo_cov, "leave_notification": lv_cov,
            "wall_harness_s": round(time.time() - t0, 1)}
     return {"coverage": cov, "violations": violations, "known": known}
 
@@ -671,6 +673,8 @@ def run(ctx):
 def replay(path, wd):
     obj = json.load(open(path))
     binary = build_harness(PKG, dirs=HDIRS)
+    if obj.get("kind") == "members":
+        return round_probe.replay(obj, wd)
     if obj.get("kind") == "backoff":
         return backoff_probe.replay(obj, wd)
     if obj.get("kind") == "advertise":
